@@ -107,7 +107,7 @@ def run(ctx):
     _NVAR = ctx.pick(2, len(D.PERIODIC_SCALES))
     full_ticks = "{" + ", ".join(str(10 * x + dm) for x in range(0, 13) for dm in range(0, 4)) + "}"
     ctx.mc("loop", "Periodic", "MC_Periodic.cfg", required_actions=["Start", "Stop", "Tick", "Done"],
-           overrides=ctx.pick({}, {"Periods": "{1, 2, 3, 4, 5, 6}", "Ticks": full_ticks, "Back": 4, "MaxWall": 18, "MaxMono": 9}),
+           overrides=ctx.pick({}, {"Periods": "{1, 2, 3, 4, 5, 6}", "Ticks": full_ticks, "Back": 4, "MaxWall": 15, "MaxMono": 8}),
            timeout=ctx.pick(300, 2400))
     runs = ctx.pick([{"L": 5, "Ticks": "{41, 31, 11, 101}"}],
                     [{"L": 6, "Kinds": '{"sync", "coro", "raise"}'},
@@ -118,12 +118,12 @@ def run(ctx):
                    nontrivial=lambda e, p: any(s["act"] == "tick" for s in p) and any(s["act"] == "start" for s in p))
     # extension: start() offered again while an invocation is still in flight (after stop)
     rp = ctx.gen_paths("loop", "Gen_Periodic", "Gen_Periodic.cfg",
-                       overrides={"L": ctx.pick(5, 7), "Restart": 1, "Periods": "{2}", "Ticks": "{41, 52, 62}",
+                       overrides={"L": ctx.pick(5, 6), "Restart": 1, "Periods": "{2}", "Ticks": "{41, 52, 62}",
                                   "Kinds": ctx.pick('{"coro"}', '{"coro", "cororaise", "sync"}')})
     rp = [(e, p) for e, p in rp if sum(1 for s in p if s["act"] == "start") > 1]
     ctx.replay(rp, periodic_replayer, label="s2c-periodic-restart")
-    n = ctx.pick(200, 10000)
-    traces = framework.pool_map(random_periodic_trace, [(i + 1, ctx.seed * 1000003 + i, ctx.pick(60, 150)) for i in range(n)])
+    n = ctx.pick(200, 3000)
+    traces = framework.pool_map(random_periodic_trace, [(i + 1, ctx.seed * 1000003 + i, ctx.pick(60, 100)) for i in range(n)])
     ctx.validate("loop", "Trace_Periodic", "Trace_Periodic.cfg", traces, label="c2s-periodic",
                  sig_fn=lambda t, bad, l: {"spec": "Periodic", "kind_": t["cfg"]["kind"]})
     # proof component: the arithmetic facts for all integers (TLAPS)
